@@ -41,7 +41,7 @@ theorem potential_constants_real :
 
 theorem potential_score_tie (s : Crystal ℝ) : Gen.potential_score s = s.scoreLJ := by
   unfold Gen.potential_score Crystal.scoreLJ
-  simp only [shape_energy_tie, potential_cartesian_positions_tie, potential_relative_positions_tie, periodic_images_tie,
+  simp only [shape_transform_tie, shape_energy_tie, potential_cartesian_positions_tie, potential_relative_positions_tie, periodic_images_tie,
     potential_total_shapes_tie, potential_constants_real.1, potential_constants_real.2]
   have hpairs := foldl_enumerate_skip (fun (acc : ℝ) (a b : Shape ℝ) => acc + a.energy b)
     (s.cartPositions.map fun p => s.shape.transform p) (((0 : Nat) : ℝ))
